@@ -159,6 +159,24 @@ def run_build(c, P):
         ws.close(1000, text)
         check_one_frame(c, w, sock, 8, [0x03, 0xE8] + want, 'close(1000, %d char str)' % k)
         cls = 'close_text:%d' % k
+    elif kind == 'close_text_long':
+        # reason = N copies of ONE symbolic code point (any plane): the UTF-8 size class x N crosses the 123-byte bound
+        N = lens[c.choose(len(lens), 'nchars')]
+        cp = c.int('cp', 21)
+        if c.concrete is None:
+            c.assume(z3.And(z3.ULE(cp.e, 0x10FFFF), z3.Or(z3.ULT(cp.e, 0xD800), z3.UGT(cp.e, 0xDFFF))))
+        cps = [cp] * N
+        text = mk_str(cps) if c.concrete is None else chr(cp) * N
+        want = items_of(symdata.utf8_encode_forking(cps)) if c.concrete is None else list(text.encode('utf-8'))
+        if len(want) + 2 > 125:
+            expect_reject(c, w, sock, lambda: ws.close(1000, text), 'close(1000, %d chars = %d bytes)' % (N, len(want)))
+            if ws.is_closing:
+                c.fail('C03: rejected close() left the WebSocket in the closing state')
+            cls = 'close_text_long:reject:%dx%d' % (N, len(want) // N)
+        else:
+            ws.close(1000, text)
+            check_one_frame(c, w, sock, 8, [0x03, 0xE8] + want, 'close(1000, %d chars = %d bytes)' % (N, len(want)))
+            cls = 'close_text_long:%dx%d' % (N, len(want) // N)
     elif kind == 'types':
         which = c.choose(9, 'case')
         b = mk_bytes([c.byte('x0'), c.byte('x1')])
